@@ -47,6 +47,7 @@ impl<R: Req> Endpoint<R> {
 }
 
 // one-element descriptor list lent from an owned File (R12 target of `Some(&[file.as_raw_fd()])`)
+// R12 target: Some(&[fd.as_raw_fd()]) = one-element descriptor list lent from a File
 #[verifier::external_body]
 pub fn fds1(f: &File) -> (r: Option<&[RawFd]>)
     ensures opt_rawfds(r) == seq![f.id@]
@@ -81,10 +82,12 @@ pub struct Backend { pub sock_id: Ghost<int> }
 pub struct GpuBackend { pub sock_id: Ghost<int> }
 pub struct UnixStream { pub id: Ghost<int> }
 impl Backend {
+    // assumed: ENV constructor of the proxy object handed to the handler (the proxy itself is verified in unit proxy / gpu)
     #[verifier::external_body]
     pub fn from_stream(sock: UnixStream) -> (r: Backend) ensures r.sock_id@ == sock.id@ { unimplemented!() }
 }
 impl GpuBackend {
+    // assumed: ENV constructor of the proxy object handed to the handler (the proxy itself is verified in unit proxy / gpu)
     #[verifier::external_body]
     pub fn from_stream(sock: UnixStream) -> (r: GpuBackend) ensures r.sock_id@ == sock.id@ { unimplemented!() }
 }
@@ -95,66 +98,97 @@ pub fn unix_stream_from_file(file: File) -> (r: UnixStream) ensures r.id@ == fil
 
 
 impl HandlerStub {
+    // assumed: ENV-HANDLER the device handler is an ARBITRARY implementation of its trait (any result / return value); the stub only records the call in the ghost trace
     #[verifier::external_body] pub fn set_owner(&mut self) -> (r: Result<()>)
         ensures final(self).trace@ == old(self).trace@.push(Call::SetOwner), final(self).rets@ == old(self).rets@.push(ret_unit(r)) { unimplemented!() }
+    // assumed: ENV-HANDLER the device handler is an ARBITRARY implementation of its trait (any result / return value); the stub only records the call in the ghost trace
     #[verifier::external_body] pub fn reset_owner(&mut self) -> (r: Result<()>)
         ensures final(self).trace@ == old(self).trace@.push(Call::ResetOwner), final(self).rets@ == old(self).rets@.push(ret_unit(r)) { unimplemented!() }
+    // assumed: ENV-HANDLER the device handler is an ARBITRARY implementation of its trait (any result / return value); the stub only records the call in the ghost trace
     #[verifier::external_body] pub fn reset_device(&mut self) -> (r: Result<()>)
         ensures final(self).trace@ == old(self).trace@.push(Call::ResetDevice), final(self).rets@ == old(self).rets@.push(ret_unit(r)) { unimplemented!() }
+    // assumed: ENV-HANDLER the device handler is an ARBITRARY implementation of its trait (any result / return value); the stub only records the call in the ghost trace
     #[verifier::external_body] pub fn get_features(&mut self) -> (r: Result<u64>)
         ensures final(self).trace@ == old(self).trace@.push(Call::GetFeatures), final(self).rets@ == old(self).rets@.push(ret_u64(r)) { unimplemented!() }
+    // assumed: ENV-HANDLER the device handler is an ARBITRARY implementation of its trait (any result / return value); the stub only records the call in the ghost trace
     #[verifier::external_body] pub fn set_features(&mut self, features: u64) -> (r: Result<()>)
         ensures final(self).trace@ == old(self).trace@.push(Call::SetFeatures(features)), final(self).rets@ == old(self).rets@.push(ret_unit(r)) { unimplemented!() }
+    // assumed: ENV-HANDLER the device handler is an ARBITRARY implementation of its trait (any result / return value); the stub only records the call in the ghost trace
     #[verifier::external_body] pub fn set_mem_table(&mut self, ctx: &[VhostUserMemoryRegion], files: Vec<File>) -> (r: Result<()>)
         ensures final(self).trace@ == old(self).trace@.push(Call::SetMemTable(ctx@, file_ids(files@))), final(self).rets@ == old(self).rets@.push(ret_unit(r)) { unimplemented!() }
+    // assumed: ENV-HANDLER the device handler is an ARBITRARY implementation of its trait (any result / return value); the stub only records the call in the ghost trace
     #[verifier::external_body] pub fn set_vring_num(&mut self, index: u32, num: u32) -> (r: Result<()>)
         ensures final(self).trace@ == old(self).trace@.push(Call::SetVringNum(index, num)), final(self).rets@ == old(self).rets@.push(ret_unit(r)) { unimplemented!() }
+    // assumed: ENV-HANDLER the device handler is an ARBITRARY implementation of its trait (any result / return value); the stub only records the call in the ghost trace
     #[verifier::external_body] pub fn set_vring_addr(&mut self, index: u32, flags: VhostUserVringAddrFlags, descriptor: u64, used: u64, available: u64, log: u64) -> (r: Result<()>)
         ensures final(self).trace@ == old(self).trace@.push(Call::SetVringAddr(index, flags.bits, descriptor, used, available, log)), final(self).rets@ == old(self).rets@.push(ret_unit(r)) { unimplemented!() }
+    // assumed: ENV-HANDLER the device handler is an ARBITRARY implementation of its trait (any result / return value); the stub only records the call in the ghost trace
     #[verifier::external_body] pub fn set_vring_base(&mut self, index: u32, base: u32) -> (r: Result<()>)
         ensures final(self).trace@ == old(self).trace@.push(Call::SetVringBase(index, base)), final(self).rets@ == old(self).rets@.push(ret_unit(r)) { unimplemented!() }
+    // assumed: ENV-HANDLER the device handler is an ARBITRARY implementation of its trait (any result / return value); the stub only records the call in the ghost trace
     #[verifier::external_body] pub fn get_vring_base(&mut self, index: u32) -> (r: Result<VhostUserVringState>)
         ensures final(self).trace@ == old(self).trace@.push(Call::GetVringBase(index)), final(self).rets@ == old(self).rets@.push(match r { Ok(v) => Ret::State(v), Err(_) => Ret::Failed }) { unimplemented!() }
+    // assumed: ENV-HANDLER the device handler is an ARBITRARY implementation of its trait (any result / return value); the stub only records the call in the ghost trace
     #[verifier::external_body] pub fn set_vring_kick(&mut self, index: u8, fd: Option<File>) -> (r: Result<()>)
         ensures final(self).trace@ == old(self).trace@.push(Call::SetVringKick(index, opt_file_id(fd))), final(self).rets@ == old(self).rets@.push(ret_unit(r)) { unimplemented!() }
+    // assumed: ENV-HANDLER the device handler is an ARBITRARY implementation of its trait (any result / return value); the stub only records the call in the ghost trace
     #[verifier::external_body] pub fn set_vring_call(&mut self, index: u8, fd: Option<File>) -> (r: Result<()>)
         ensures final(self).trace@ == old(self).trace@.push(Call::SetVringCall(index, opt_file_id(fd))), final(self).rets@ == old(self).rets@.push(ret_unit(r)) { unimplemented!() }
+    // assumed: ENV-HANDLER the device handler is an ARBITRARY implementation of its trait (any result / return value); the stub only records the call in the ghost trace
     #[verifier::external_body] pub fn set_vring_err(&mut self, index: u8, fd: Option<File>) -> (r: Result<()>)
         ensures final(self).trace@ == old(self).trace@.push(Call::SetVringErr(index, opt_file_id(fd))), final(self).rets@ == old(self).rets@.push(ret_unit(r)) { unimplemented!() }
+    // assumed: ENV-HANDLER the device handler is an ARBITRARY implementation of its trait (any result / return value); the stub only records the call in the ghost trace
     #[verifier::external_body] pub fn get_protocol_features(&mut self) -> (r: Result<VhostUserProtocolFeatures>)
         ensures final(self).trace@ == old(self).trace@.push(Call::GetProtocolFeatures), final(self).rets@ == old(self).rets@.push(match r { Ok(v) => Ret::U64(v.bits), Err(_) => Ret::Failed }) { unimplemented!() }
+    // assumed: ENV-HANDLER the device handler is an ARBITRARY implementation of its trait (any result / return value); the stub only records the call in the ghost trace
     #[verifier::external_body] pub fn set_protocol_features(&mut self, features: u64) -> (r: Result<()>)
         ensures final(self).trace@ == old(self).trace@.push(Call::SetProtocolFeatures(features)), final(self).rets@ == old(self).rets@.push(ret_unit(r)) { unimplemented!() }
+    // assumed: ENV-HANDLER the device handler is an ARBITRARY implementation of its trait (any result / return value); the stub only records the call in the ghost trace
     #[verifier::external_body] pub fn get_queue_num(&mut self) -> (r: Result<u64>)
         ensures final(self).trace@ == old(self).trace@.push(Call::GetQueueNum), final(self).rets@ == old(self).rets@.push(ret_u64(r)) { unimplemented!() }
+    // assumed: ENV-HANDLER the device handler is an ARBITRARY implementation of its trait (any result / return value); the stub only records the call in the ghost trace
     #[verifier::external_body] pub fn set_vring_enable(&mut self, index: u32, enable: bool) -> (r: Result<()>)
         ensures final(self).trace@ == old(self).trace@.push(Call::SetVringEnable(index, enable)), final(self).rets@ == old(self).rets@.push(ret_unit(r)) { unimplemented!() }
+    // assumed: ENV-HANDLER the device handler is an ARBITRARY implementation of its trait (any result / return value); the stub only records the call in the ghost trace
     #[verifier::external_body] pub fn get_config(&mut self, offset: u32, size: u32, flags: VhostUserConfigFlags) -> (r: Result<Vec<u8>>)
         ensures final(self).trace@ == old(self).trace@.push(Call::GetConfig(offset, size, flags.bits)), final(self).rets@ == old(self).rets@.push(match r { Ok(v) => Ret::Bytes(v@), Err(_) => Ret::Failed }) { unimplemented!() }
+    // assumed: ENV-HANDLER the device handler is an ARBITRARY implementation of its trait (any result / return value); the stub only records the call in the ghost trace
     #[verifier::external_body] pub fn set_config(&mut self, offset: u32, buf: &[u8], flags: VhostUserConfigFlags) -> (r: Result<()>)
         ensures final(self).trace@ == old(self).trace@.push(Call::SetConfig(offset, buf@, flags.bits)), final(self).rets@ == old(self).rets@.push(ret_unit(r)) { unimplemented!() }
+    // assumed: ENV-HANDLER the device handler is an ARBITRARY implementation of its trait (any result / return value); the stub only records the call in the ghost trace
     #[verifier::external_body] pub fn set_backend_req_fd(&mut self, backend: Backend)
         ensures final(self).trace@ == old(self).trace@.push(Call::SetBackendReqFd(backend.sock_id@)), final(self).rets@ == old(self).rets@.push(Ret::OkUnit) { unimplemented!() }
+    // assumed: ENV-HANDLER the device handler is an ARBITRARY implementation of its trait (any result / return value); the stub only records the call in the ghost trace
     #[verifier::external_body] pub fn set_gpu_socket(&mut self, gpu_backend: GpuBackend) -> (r: Result<()>)
         ensures final(self).trace@ == old(self).trace@.push(Call::SetGpuSocket(gpu_backend.sock_id@)), final(self).rets@ == old(self).rets@.push(ret_unit(r)) { unimplemented!() }
+    // assumed: ENV-HANDLER the device handler is an ARBITRARY implementation of its trait (any result / return value); the stub only records the call in the ghost trace
     #[verifier::external_body] pub fn get_shared_object(&mut self, uuid: VhostUserSharedMsg) -> (r: Result<File>)
         ensures final(self).trace@ == old(self).trace@.push(Call::GetSharedObject(uuid)), final(self).rets@ == old(self).rets@.push(match r { Ok(v) => Ret::FileId(v.id@), Err(_) => Ret::Failed }) { unimplemented!() }
+    // assumed: ENV-HANDLER the device handler is an ARBITRARY implementation of its trait (any result / return value); the stub only records the call in the ghost trace
     #[verifier::external_body] pub fn get_inflight_fd(&mut self, inflight: &VhostUserInflight) -> (r: Result<(VhostUserInflight, File)>)
         ensures final(self).trace@ == old(self).trace@.push(Call::GetInflightFd(*inflight)), final(self).rets@ == old(self).rets@.push(match r { Ok(v) => Ret::Inflight(v.0, v.1.id@), Err(_) => Ret::Failed }) { unimplemented!() }
+    // assumed: ENV-HANDLER the device handler is an ARBITRARY implementation of its trait (any result / return value); the stub only records the call in the ghost trace
     #[verifier::external_body] pub fn set_inflight_fd(&mut self, inflight: &VhostUserInflight, file: File) -> (r: Result<()>)
         ensures final(self).trace@ == old(self).trace@.push(Call::SetInflightFd(*inflight, file.id@)), final(self).rets@ == old(self).rets@.push(ret_unit(r)) { unimplemented!() }
+    // assumed: ENV-HANDLER the device handler is an ARBITRARY implementation of its trait (any result / return value); the stub only records the call in the ghost trace
     #[verifier::external_body] pub fn get_max_mem_slots(&mut self) -> (r: Result<u64>)
         ensures final(self).trace@ == old(self).trace@.push(Call::GetMaxMemSlots), final(self).rets@ == old(self).rets@.push(ret_u64(r)) { unimplemented!() }
+    // assumed: ENV-HANDLER the device handler is an ARBITRARY implementation of its trait (any result / return value); the stub only records the call in the ghost trace
     #[verifier::external_body] pub fn add_mem_region(&mut self, region: &VhostUserSingleMemoryRegion, fd: File) -> (r: Result<()>)
         ensures final(self).trace@ == old(self).trace@.push(Call::AddMemRegion(*region, fd.id@)), final(self).rets@ == old(self).rets@.push(ret_unit(r)) { unimplemented!() }
+    // assumed: ENV-HANDLER the device handler is an ARBITRARY implementation of its trait (any result / return value); the stub only records the call in the ghost trace
     #[verifier::external_body] pub fn remove_mem_region(&mut self, region: &VhostUserSingleMemoryRegion) -> (r: Result<()>)
         ensures final(self).trace@ == old(self).trace@.push(Call::RemoveMemRegion(*region)), final(self).rets@ == old(self).rets@.push(ret_unit(r)) { unimplemented!() }
+    // assumed: ENV-HANDLER the device handler is an ARBITRARY implementation of its trait (any result / return value); the stub only records the call in the ghost trace
     #[verifier::external_body] pub fn set_device_state_fd(&mut self, direction: VhostTransferStateDirection, phase: VhostTransferStatePhase, file: File) -> (r: Result<Option<File>>)
         ensures final(self).trace@ == old(self).trace@.push(Call::SetDeviceStateFd(direction.code(), phase.code(), file.id@)), final(self).rets@ == old(self).rets@.push(match r { Ok(Some(f)) => Ret::OptFile(Some(f.id@)), Ok(None) => Ret::OptFile(None), Err(_) => Ret::Failed }) { unimplemented!() }
+    // assumed: ENV-HANDLER the device handler is an ARBITRARY implementation of its trait (any result / return value); the stub only records the call in the ghost trace
     #[verifier::external_body] pub fn check_device_state(&mut self) -> (r: Result<()>)
         ensures final(self).trace@ == old(self).trace@.push(Call::CheckDeviceState), final(self).rets@ == old(self).rets@.push(ret_unit(r)) { unimplemented!() }
+    // assumed: ENV-HANDLER the device handler is an ARBITRARY implementation of its trait (any result / return value); the stub only records the call in the ghost trace
     #[verifier::external_body] pub fn get_shmem_config(&mut self) -> (r: Result<VhostUserShMemConfig>)
         ensures final(self).trace@ == old(self).trace@.push(Call::GetShmemConfig), final(self).rets@ == old(self).rets@.push(match r { Ok(v) => Ret::ShMem(v), Err(_) => Ret::Failed }) { unimplemented!() }
+    // assumed: ENV-HANDLER the device handler is an ARBITRARY implementation of its trait (any result / return value); the stub only records the call in the ghost trace
     #[verifier::external_body] pub fn set_log_base(&mut self, log: &VhostUserLog, file: File) -> (r: Result<()>)
         ensures final(self).trace@ == old(self).trace@.push(Call::SetLogBase(*log, file.id@)), final(self).rets@ == old(self).rets@.push(ret_unit(r)) { unimplemented!() }
 }
